@@ -75,6 +75,20 @@ def gen(tier, rng):
             out.append(Case("ml_prehash_sign", cp, [sk, b"msg", ctx, 0, 1, b""], ["in_domain", "ctx-too-long"], aux="none"))
             out.append(Case("ml_verify", cp, [pk, b"msg", bytes(p.sig), ctx], ["in_domain", "ctx-too-long"], aux="false"))
             out.append(Case("ml_prehash_verify", cp, [pk, b"msg", bytes(p.sig), ctx, 0], ["in_domain", "ctx-too-long"], aux="false"))
+        # the length byte must not simply wrap: a signature over the representative with len(ctx) mod 256 in the length byte
+        # (which is what a gate that lets 256+ bytes through would verify) must be rejected under the long context
+        for n in (256, 257, 300, 511, 512):
+            ctx = bytes(rng.randrange(256) for _ in range(n))
+            msg = b"wrapped"
+            core = crate([("signature", cp, [bytes(p.sig), bytes([0, n % 256]) + ctx + msg, sk, 0, b""])])[0][0]
+            out.append(Case("ml_verify", cp, [pk, msg, core, ctx], ["in_domain", "ctx-too-long", "wrapped-length-byte", "crate-only"], aux="false"))
+            d5 = hashlib.sha512(msg).digest()
+            coreh = crate([("signature", cp, [bytes(p.sig), bytes([1, n % 256]) + ctx + OID[1] + d5, sk, 0, b""])])[0][0]
+            out.append(Case("ml_prehash_verify", cp, [pk, msg, coreh, ctx, 1], ["in_domain", "ctx-too-long", "wrapped-length-byte", "crate-only"], aux="false"))
+            # and signing under it must return nothing, in every mode
+            out.append(Case("ml_sign", cp, [sk, msg, ctx, 0, b""], ["in_domain", "ctx-too-long", "crate-only"], aux="none"))
+            out.append(Case("ml_prehash_sign", cp, [sk, msg, ctx, 0, 0, b""], ["in_domain", "ctx-too-long", "crate-only"], aux="none"))
+            out.append(Case("ml_prehash_sign", cp, [sk, msg, ctx, 1, 1, bytes(32)], ["in_domain", "ctx-too-long", "crate-only"], aux="none"))
         d = ("sha512", bytes(rng.randrange(256) for _ in range(255)), b"hello")
         sig = crate([call_sign(cp, sk, d)])[0][1]
         fn, api, args = call_verify(cp, pk, d, sig)
